@@ -34,7 +34,7 @@ FunLinks == {"fun", "flocal", "flocalarr", "flocalrec", "fcall", "flhsidx", "fco
 Links == {"cinit", "tinit"} \cup FunLinks     \* tinit: typedef-free; const initialised inside the template declaration
 Contexts == {"arrsize_g", "arrsize_t", "arrsize_f", "range_g", "range_t", "scalar_g", "init_g", "init_t", "init_meta",
              "fparam_size_g", "fparam_refsize_g", "fparam_range_g", "fparam_size_t", "fparam_range_t",       \* array sizes and range bounds in the types of function parameters
-             "init_g_double", "init_g_bool", "init_g_array", "init_g_record", "init_t_double", "init_t_bool",      \* the initialiser rule does not depend on the variable's type
+             "init_g_tdarray", "init_g_double", "init_g_bool", "init_g_array", "init_g_record", "init_t_double", "init_t_bool",      \* the initialiser rule does not depend on the variable's type
              "valarg", "crefarg", "select_dom", "iter_dom", "quant_dom"}
 
 VARIABLES leaf, chain, sem, dep, err
